@@ -1,12 +1,18 @@
 """Shared driver for the properties carried by spec/Mux.tla (C01, C03, C12, C13, C14)."""
+import json
 import os
+import threading
+from concurrent.futures import ThreadPoolExecutor
 import lib
 
 BASE = {"NC": 2, "NS": 1, "UNITS": 2, "MAXWRITE": 2, "UNORDERED": "FALSE", "SINGLE": "FALSE",
         "FEAT": '"swrite"', "DEV": "", "LATE": "", "EXTRAINV": "", "TIMEREP": "none"}
 
-# deviations the current tree still has (kept in step with the fix: commits in /repo)
+# deviations the current tree still has in the part of Cloak that Mux.tla models (all repaired by fix: commits)
 CODE_DEV = ""
+_lock = threading.Lock()
+TLC_PAR = 5        # TLC processes side by side
+TLC_WORKERS = 4    # worker threads each
 
 
 def cfg(**kw):
@@ -15,15 +21,15 @@ def cfg(**kw):
     return d
 
 
-def model_check(ctx, name, subst, timeout=900, simulate=None, depth=None):
-    r = lib.run_tlc(ctx, "Mux", "Mux_data.cfg", subst, tag="mc_" + name, timeout=timeout,
-                    simulate=simulate, depth=depth)
+def model_check(ctx, name, subst, timeout=900, workers=TLC_WORKERS):
+    r = lib.run_tlc(ctx, "Mux", "Mux_data.cfg", subst, tag="mc_" + name, timeout=timeout, workers=workers)
     lib.require_ok(r, "Mux " + name)
-    ctx.log("mc %s: %d distinct / %d generated in %.0fs" % (name, r.distinct, r.generated, r.wall))
+    with _lock:
+        ctx.log("mc %s: %d distinct / %d generated in %.0fs" % (name, r.distinct, r.generated, r.wall))
     return r
 
 
-def generate(ctx, name, subst, depth, noops=0, simulate=None, workers=None):
+def generate(ctx, name, subst, depth, noops=0, simulate=None, workers=TLC_WORKERS):
     s = dict(subst)
     s.pop("EXTRAINV", None)
     s["DEPTH"] = depth
@@ -32,30 +38,37 @@ def generate(ctx, name, subst, depth, noops=0, simulate=None, workers=None):
                     depth=(depth + 2) if simulate else None,
                     workers=(1 if simulate else workers), timeout=900)
     lib.require_ok(r, "MuxGen " + name)
-    ctx.log("gen %s: %d behaviours" % (name, len(r.behaviours)))
+    with _lock:
+        ctx.log("gen %s: %d behaviours in %.0fs" % (name, len(r.behaviours), r.wall))
     return r.behaviours
 
 
-def replay(ctx, name, behaviours, nc, unordered=False, singleplex=False, allconc=False, timeout=900,
-           gates=False, timerep="", late=0):
-    inp = lib.write_lines(os.path.join(ctx.work, "mux_%s.ndjson" % name), behaviours)
-    env = {"VERIF_IN": inp, "VERIF_MUX_NC": nc, "VERIF_MUX_UNORDERED": "1" if unordered else "",
-           "VERIF_MUX_SINGLEPLEX": "1" if singleplex else "", "VERIF_MUX_ALLCONC": "1" if allconc else "",
-           "VERIF_MUX_GATES": "1" if gates else "", "VERIF_MUX_TIMEREP": timerep, "VERIF_MUX_LATE": late}
-    res = lib.run_go(ctx, "multiplex", "TestVerifMuxReplay", env=env, tag="replay_" + name, timeout=timeout)
-    div = res.get("stats", {}).get("diverged", 0)
-    ctx.log("replay %s: %d evaluations, %d violations, %d diverged" % (
-        name, res["evaluations"], len(res.get("violations", [])), div))
-    return res
-
-
-def merge(results):
-    tot = {"evaluations": 0, "distinct_nontrivial": 0, "samples": [], "diverged": 0, "notes": [], "unstable": 0}
-    for r in results:
-        tot["evaluations"] += r["evaluations"]
-        tot["distinct_nontrivial"] += r["distinct_nontrivial"]
-        tot["samples"] += r.get("samples", [])[:2]
-        tot["diverged"] += r.get("stats", {}).get("diverged", 0)
-        tot["unstable"] += r.get("stats", {}).get("unstable", 0)
-        tot["notes"] += r.get("notes", [])[:5]
-    return tot
+def run_all(ctx, mcs, gens):
+    """Runs all TLC jobs side by side, then ONE go test process that replays every behaviour file.
+    mcs: (name, subst, timeout); gens: (name, subst, depth, noops, simulate|None, nc, opts). Returns (result, nbehaviours)."""
+    jobs = []
+    with ThreadPoolExecutor(max_workers=TLC_PAR) as ex:
+        fm = [ex.submit(model_check, ctx, n, s, t) for (n, s, t) in mcs]
+        fg = [(g, ex.submit(generate, ctx, g[0], g[1], g[2], g[3], g[4])) for g in gens]
+        for f in fm:
+            f.result()
+        nb = 0
+        for g, f in fg:
+            beh = f.result()
+            if not beh:
+                raise lib.Inconclusive("no behaviours generated for " + g[0])
+            nb += len(beh)
+            name, nc, opts = g[0], g[5], g[6]
+            path = lib.write_lines(os.path.join(ctx.work, "mux_%s.ndjson" % name), beh)
+            jobs.append({"name": name, "file": path, "nc": nc, "unordered": bool(opts.get("unordered")),
+                         "singleplex": bool(opts.get("singleplex")), "allconc": bool(opts.get("allconc")),
+                         "gates": bool(opts.get("gates")), "timerep": opts.get("timerep", ""), "late": opts.get("late", 0)})
+    jf = os.path.join(ctx.work, "mux_jobs.json")
+    with open(jf, "w") as fh:
+        json.dump(jobs, fh)
+    res = lib.run_go(ctx, "multiplex", "TestVerifMuxReplay", env={"VERIF_JOBS": jf}, tag="replay", timeout=1800)
+    st = res.get("stats", {})
+    for j in jobs:
+        ctx.log("replay %s: %d behaviours, %d violations, %d diverged" % (
+            j["name"], st.get(j["name"] + ":behaviours", 0), st.get(j["name"] + ":violations", 0), st.get(j["name"] + ":diverged", 0)))
+    return res, nb
